@@ -106,3 +106,18 @@ package proxy
 //@   nopanic
 //@   requires p.cfg != nil && aset(p.cfg.Proxy.RetryOnInvalidRange.value) && req != nil && clientHd != nil && specHdInv(clientHd)
 //@   ensures [C16] httpwrites(r) >= old(httpwrites(r)) + 1
+
+// ---------------------------------------------------------------- tunnels (C10)
+
+// A responder handed to handleHTTP carries nothing from an earlier exchange.
+//@ spec func specRespEmpty(r any) bool = forall k key :: !in(resphdr(r), k)
+
+// Not yet verified in full; what its callers must establish is stated and checked at every call.
+//@ func Proxy.handleHTTP
+//@   trusted
+//@   requires [C10] specRespEmpty(r)
+//@   assigns HeaderDirectives http_Request http.Request map_ cache.EntryMetadata cache.MemoryCache cache.FileCache http.Response
+
+// Every request read from a CONNECT tunnel is answered through a responder of its own.
+//@ props C10
+//@ func Proxy.handleCONNECT
